@@ -127,6 +127,12 @@ def cases(rng, tier):
              ("E::P3(1, 2, 3)", "E::P3(1, 2)", False), ("E::P3(1, 2, 3)", "E::P3(_, _, _)", True), ("E::P1(1)", "E::P1()", False),
              ("E::P1(1)", "E::P1(1, _)", False), ("E::P0", "E::P0", True), ("E::P2(1, 2)", "F::P2(1, 2)", False),
              ("Some(1)", "Some(1, 2)", False), ("Some(1)", "Some()", False), ("TS2(1, 2)", "TS2(1)", False), ("TS2(1, 2)", "TS2(1, 2)", True),
+             # arguments that are all `_` (nothing to bind, nothing to compare): the arity must still be checked
+             ("E::P2(1, 2)", "E::P2(_)", False), ("E::P2(1, 2)", "E::P2(_, _, _)", False), ("E::P2(1, 2)", "E::P2(_, _)", True),
+             ("E::P3(1, 2, 3)", "E::P3(_, _)", False), ("E::P1(1)", "E::P1(_, _)", False), ("Some(1)", "Some(_, _)", False),
+             ("TS2(1, 2)", "TS2(_)", False), ("TS2(1, 2)", "TS2(_, _, _)", False), ("(1, 2, 3)", "(_, _)", False), ("(1, 2)", "(_, _, _)", False),
+             ("Some(E::P2(1, 2))", "Some(E::P2(_))", False), ("vec![E::P2(1, 2)]", "[E::P2(_)]", False),
+             ("Outer { inner: E::P2(1, 2), n: 1 }", "Outer { inner: E::P2(_), .. }", False), ("(E::P2(1, 2), 1)", "(E::P2(_, _, _), _)", False),
              ("Some((1, 2))", "Some((1, 2, 3))", False), ("vec![(1, 2)]", "[(1,)]", False), ("vec![E::P2(1, 2)]", "#(E::P2(1))", False)]
     for v, p, ok in arity:
         out.append(("arity: %s against %s" % (p, v), program(v, p), ok, "arity"))
